@@ -107,6 +107,7 @@ type Env struct {
 	saved        [][]byte // database images saved by save_copy steps
 	minSnapshotTXID ltx.TXID // last value returned by DB.EnforceSnapshotRetention
 	AppTrace     []Step   // every application step executed, in order
+	Cleanup      []func() // run at the end of the run inside the bubble (stop helper goroutines)
 	AppTraceRes  []bool   // whether it took effect (result ok)
 }
 
@@ -290,6 +291,9 @@ func (e *Env) run() {
 	}
 	defer func() {
 		verifhook.YieldHook = nil
+		for _, f := range e.Cleanup {
+			f()
+		}
 		if e.LS != nil {
 			e.stopLS(context.Background())
 		}
